@@ -153,9 +153,93 @@ fn compare(left: &Number, right: &Number) -> std::cmp::Ordering {
     }
 }
 
-pub fn eval(expr: Node) -> Result<Number, Box<dyn error::Error>> {
+type EvalResult = Result<Number, Box<dyn error::Error>>;
+
+fn multiply(a: Number, b: Number) -> EvalResult {
+    match a {
+        Number::Integer(value_a) => match b {
+            Number::Integer(value_b) => match value_a.checked_mul(value_b) {
+                Some(sub) => Ok(Number::Integer(sub)),
+                None => Ok(Number::Float((value_a as f64) * (value_b as f64))),
+            },
+            Number::Float(value_b) => Ok(Number::Float((value_a as f64) * value_b)),
+        },
+        Number::Float(value_a) => match b {
+            Number::Integer(value_b) => Ok(Number::Float(value_a * (value_b as f64))),
+            Number::Float(value_b) => Ok(Number::Float(value_a * value_b)),
+        },
+    }
+}
+
+fn negative(x: Number) -> EvalResult {
+    match x {
+        Number::Integer(v) => match 0_i64.checked_sub(v) {
+            Some(neg) => Ok(Number::Integer(neg)),
+            None => Ok(Number::Float(-(v as f64))),
+        },
+        Number::Float(v) => Ok(Number::Float(-v)),
+    }
+}
+
+fn factorial(sub_result: Number) -> EvalResult {
+    if let Number::Integer(n) = sub_result {
+        if (0..=20).contains(&n) {
+            let mut factorial_result = 1;
+            for i in 2..=(n as usize) {
+                #[cfg(feature = "verif_hooks")]
+                crate::verif_hooks::tick_loop();
+                factorial_result *= i as i64;
+            }
+            return Ok(Number::Integer(factorial_result));
+        }
+    }
+    // same rules as eval_f64: exact product for integral values, gamma for the others
+    let x = match sub_result {
+        Number::Integer(n) => n as f64,
+        Number::Float(n) => n,
+    };
+    if x >= 0.0 {
+        if (x % 1.0) > 0.0 {
+            Ok(Number::Float(gamma(x + 1.0)))
+        } else {
+            let mut factorial_result = 1.0;
+            for i in 2..=(x as usize) {
+                #[cfg(feature = "verif_hooks")]
+                crate::verif_hooks::tick_loop();
+                factorial_result *= i as f64;
+                if factorial_result.is_infinite() {
+                    break;
+                }
+            }
+            Ok(Number::Float(factorial_result))
+        }
+    } else if (x % 1.0) == 0.0 {
+        Ok(Number::Float(f64::NAN))
+    } else {
+        Ok(Number::Float(gamma(x + 1.0)))
+    }
+}
+
+// Chains of prefix signs, factorials and degree signs nest `eval` once per character (up to 255 deep on
+// a 256 character input), so these nodes are evaluated here, in a small frame, and everything else in
+// `eval_node`: an unoptimised build must not exhaust a 2 MiB thread stack.
+pub fn eval(expr: Node) -> EvalResult {
     #[cfg(feature = "verif_hooks")]
     crate::verif_hooks::tick();
+    match expr {
+        Node::Num(i) => Ok(i),
+        Node::Negative(expr1) => negative(eval(*expr1)?),
+        Node::Factorial(sub_expr) => factorial(eval(*sub_expr)?),
+        Node::Multiply(expr1, expr2) => {
+            let a = eval(*expr1)?;
+            let b = eval(*expr2)?;
+            multiply(a, b)
+        }
+        other => eval_node(other),
+    }
+}
+
+fn eval_node(expr: Node) -> EvalResult {
     use self::Node::*;
     match expr {
         Num(i) => Ok(i),
@@ -196,19 +280,7 @@ pub fn eval(expr: Node) -> Result<Number, Box<dyn error::Error>> {
         Multiply(expr1, expr2) => {
             let a = eval(*expr1)?;
             let b = eval(*expr2)?;
-            match a {
-                Number::Integer(value_a) => match b {
-                    Number::Integer(value_b) => match value_a.checked_mul(value_b) {
-                        Some(sub) => Ok(Number::Integer(sub)),
-                        None => Ok(Number::Float((value_a as f64) * (value_b as f64))),
-                    },
-                    Number::Float(value_b) => Ok(Number::Float((value_a as f64) * value_b)),
-                },
-                Number::Float(value_a) => match b {
-                    Number::Integer(value_b) => Ok(Number::Float(value_a * (value_b as f64))),
-                    Number::Float(value_b) => Ok(Number::Float(value_a * value_b)),
-                },
-            }
+            multiply(a, b)
         }
         Divide(expr1, expr2) => {
             let a = eval(*expr1)?;
@@ -253,16 +325,7 @@ pub fn eval(expr: Node) -> Result<Number, Box<dyn error::Error>> {
                 },
             }
         }
-        Negative(expr1) => {
-            let x = eval(*expr1)?;
-            match x {
-                Number::Integer(v) => match 0_i64.checked_sub(v) {
-                    Some(neg) => Ok(Number::Integer(neg)),
-                    None => Ok(Number::Float(-(v as f64))),
-                },
-                Number::Float(v) => Ok(Number::Float(-v)),
-            }
-        }
+        Negative(expr1) => negative(eval(*expr1)?),
         Pow(expr1, expr2) => {
             let a = eval(*expr1)?;
             let b = eval(*expr2)?;
@@ -309,45 +372,7 @@ pub fn eval(expr: Node) -> Result<Number, Box<dyn error::Error>> {
                 },
             }
         }
-        Factorial(sub_expr) => {
-            let sub_result = eval(*sub_expr)?;
-            if let Number::Integer(n) = sub_result {
-                if (0..=20).contains(&n) {
-                    let mut factorial_result = 1;
-                    for i in 2..=(n as usize) {
-                        #[cfg(feature = "verif_hooks")]
-                        crate::verif_hooks::tick_loop();
-                        factorial_result *= i as i64;
-                    }
-                    return Ok(Number::Integer(factorial_result));
-                }
-            }
-            // same rules as eval_f64: exact product for integral values, gamma for the others
-            let x = match sub_result {
-                Number::Integer(n) => n as f64,
-                Number::Float(n) => n,
-            };
-            if x >= 0.0 {
-                if (x % 1.0) > 0.0 {
-                    Ok(Number::Float(gamma(x + 1.0)))
-                } else {
-                    let mut factorial_result = 1.0;
-                    for i in 2..=(x as usize) {
-                        #[cfg(feature = "verif_hooks")]
-                        crate::verif_hooks::tick_loop();
-                        factorial_result *= i as f64;
-                        if factorial_result.is_infinite() {
-                            break;
-                        }
-                    }
-                    Ok(Number::Float(factorial_result))
-                }
-            } else if (x % 1.0) == 0.0 {
-                Ok(Number::Float(f64::NAN))
-            } else {
-                Ok(Number::Float(gamma(x + 1.0)))
-            }
-        }
+        Factorial(sub_expr) => factorial(eval(*sub_expr)?),
         LambertW(expr) => {
             let sub_expr = eval(*expr)?;
             let sub_expr = match sub_expr {
